@@ -108,6 +108,7 @@ structure FetchesOK (s : State) : Prop where
   connNodup : (s.peers.map (·.conn)).Nodup
   uidLt : ∀ p ∈ s.peers, ∀ f ∈ p.fetches, f.uid < s.nextUid
   uidNodup : ∀ p ∈ s.peers, (p.fetches.map (·.uid)).Nodup
+  uidGlobal : ∀ p ∈ s.peers, ∀ q ∈ s.peers, ∀ f ∈ p.fetches, ∀ g ∈ q.fetches, f.uid = g.uid → p.conn = q.conn
   fidOk : ∀ p ∈ s.peers, ∀ f ∈ p.fetches, idsEqual f.fid f.fid = true
   fidDistinct : ∀ p ∈ s.peers, p.fetches.Pairwise (fun a b => idsEqual a.fid b.fid = false)
 
